@@ -88,8 +88,7 @@ void cubic_spline_predict(dvector *x_, matrix *S, dvector *y_pred)
     double y = MISSING;
     for(j = 0; j < n; j++){
       double xi = S->data[j][0];
-      if((x > xi || FLOAT_EQ(x, xi, 1e-2)) &&
-      (x < S->data[j+1][0] || FLOAT_EQ(x, S->data[j+1][0], 1e-2))){
+      if(x >= xi && x <= S->data[j+1][0]){
         y = S->data[j][1] + S->data[j][2]*(x-xi) + S->data[j][3]*(x-xi)*(x-xi) + S->data[j][4]*(x-xi)*(x-xi)*(x-xi);
         break;
       }
